@@ -120,6 +120,7 @@ func runProps(ids []string, tier string) int {
 			}
 			continue
 		}
+		curProg = p
 		for _, id := range ids {
 			oc := outcomes[id]
 			run := newRun(id, p)
